@@ -494,3 +494,43 @@ add('C01.adjacent_grouping', 'C01', (TIG, "              for new_group in next_d
     'C01.R10', 'only the most recent group is considered: equal consumers separated by a different one get two inserted ops with the same tensor name (seeded b3-C01; MISSED by the first version - declared blind spot)')
 add('C01.group_ignores_params', 'C01', (TIG, "  return (\n      param1.parameters == param2.parameters\n      and len(param1.transformations) > index", "  return (\n      len(param1.transformations) > index"),
     'C01.R10', 'consumers with different parameters merged into one inserted op')
+
+# ---------------------------------------------------------------------- C04
+add('C04.split_constraint', 'C04', (NMM, "      constraint=_OpQuantConstraint.SAME_AS_INPUT_SCALE,\n      inputs_to_ignore=[0],  # Split dimension does not need to be quantized.", "      inputs_to_ignore=[0],  # Split dimension does not need to be quantized."),
+    'C04.R1', 'split outputs no longer share the input parameters', control=True)
+add('C04.registry_swap', 'C04', (AM, "        naive_min_max_quantize.materialize_reshape,\n        naive_min_max_quantize.materialize_average_pool_2d,\n        naive_min_max_quantize.materialize_embedding_lookup,\n        naive_min_max_quantize.materialize_softmax_and_logistic,\n        naive_min_max_quantize.materialize_tanh,",
+    "        naive_min_max_quantize.materialize_reshape,\n        naive_min_max_quantize.materialize_average_pool_2d,\n        naive_min_max_quantize.materialize_embedding_lookup,\n        naive_min_max_quantize.materialize_tanh,\n        naive_min_max_quantize.materialize_softmax_and_logistic,"),
+    ('C04.R2', 'C04.R1'), 'softmax and tanh materialisers swapped in the registration tuple')
+add('C04.tanh_scale', 'C04', (NMM, "        scale=np.array(1.0 / (1 << (num_bits - 1))),", "        scale=np.array(1.0 / (1 << num_bits)),"), 'C04.R2', 'tanh scale 1/2^bits', control=True)
+add('C04.softmax_zp', 'C04', (NMM, "          scale=np.array(1.0 / 256),\n          zero_point=np.array(-128),", "          scale=np.array(1.0 / 256),\n          zero_point=np.array(0),"), 'C04.R2', 'softmax int8 zero point 0')
+add('C04.dw_dim', 'C04', (FBU, "    _TFLOpName.DEPTHWISE_CONV_2D: 3,", "    _TFLOpName.DEPTHWISE_CONV_2D: 0,"), 'C04.R3', 'depthwise quantized dimension 0')
+add('C04.bmm_swapped', 'C04', (MMU, "  if adj_y:\n    return rank - 2\n  return rank - 1", "  if adj_y:\n    return rank - 1\n  return rank - 2"), 'C04.R3', 'batch-matmul adj_y arms swapped')
+add('C04.reduce_wrong', 'C04', (MMU, "    if rank_idx != quantized_dim:\n      reduce_dims.append(rank_idx)", "    if rank_idx > quantized_dim:\n      reduce_dims.append(rank_idx)"), 'C04.R3', 'statistics reduced only over the axes after the quantized one')
+add('C04.init_no_bmm', 'C04', (MMU, "      if op_info.op_name == _TFLOpName.BATCH_MATMUL:\n        quantized_dim = _get_bmm_weight_quantized_dim(\n            tensor_data, adj_y=op_info.op.builtinOptions.adjY\n        )\n      else:\n        quantized_dim = tfl_flatbuffer_utils.TFL_OP_TO_WEIGHT_QUANTIZED_DIM.get(\n            op_info.op_name, None\n        )",
+    "      quantized_dim = tfl_flatbuffer_utils.TFL_OP_TO_WEIGHT_QUANTIZED_DIM.get(\n          op_info.op_name, None\n      )"), 'C04.R3', 'calibration-time statistics ignore the batch-matmul rule (per-tensor stats, per-channel params)')
+add('C04.bias_weight_only_scale', 'C04', (NMM, "              op_tensor_params[op_input_index].consumers[0].parameters,\n              op_tensor_params[op_weight_index].consumers[0].parameters,", "              op_tensor_params[op_weight_index].consumers[0].parameters,\n              op_tensor_params[op_weight_index].consumers[0].parameters,"),
+    'C04.R4', 'bias scale uses the weight scale twice')
+add('C04.tconv_indices', 'C04', (NMM, "  ignored_shape_index = 0\n  weight_index = 1\n  input_index = 2\n  bias_index = 3", "  ignored_shape_index = 0\n  weight_index = 2\n  input_index = 1\n  bias_index = 3"), 'C04.R4', 'transpose-conv weight/input indices swapped')
+add('C04.no_qdim', 'C04', (QTS, "    if transformation_input.quant_params.quantized_dimension is not None:\n      flatbuffer_quantization.quantizedDimension = (\n          transformation_input.quant_params.quantized_dimension\n      )\n", ""),
+    'C04.R5', 'quantized dimension never written to the flatbuffer')
+add('C04.qdim_truthy', 'C04', (QTS, "    if transformation_input.quant_params.quantized_dimension is not None:", "    if transformation_input.quant_params.quantized_dimension:"), (), 'dimension skipped when it is 0: harmless, 0 is the flatbuffer default', kind='twin')
+add('C04.same_input_uses_output', 'C04', (MMU, "      quant_params=input_tensor_params.consumers[0].parameters,\n  )", "      quant_params=None,\n  )"), 'C04.R6', 'same-as-input helper recomputes output parameters from the output statistics')
+add('C04.zp_order', 'C04', (MMU, "      tensor_min_max[\"min\"],\n      tensor_min_max[\"max\"],\n      tensor_quant_config.num_bits,", "      tensor_min_max[\"max\"],\n      tensor_min_max[\"min\"],\n      tensor_quant_config.num_bits,"), 'C04.R3', 'min and max passed in the wrong order')
+add('C04.twin_kw', 'C04', (NMM, "      constraint=_OpQuantConstraint.SAME_AS_OUTPUT_SCALE,\n  )", "      constraint=utils.OpQuantConstraint.SAME_AS_OUTPUT_SCALE,\n  )"), (), 'constraint enum referenced through the module instead of the alias', kind='twin')
+add('C04.dim0_as_none', 'C04', (MMU, "  if quantized_dim is None:\n    return None\n  reduce_dims = []", "  if not quantized_dim:\n    return None\n  reduce_dims = []"), 'C04.R3', 'quantized dimension 0 treated as per-tensor (FC/CONV per-channel statistics collapse)')
+
+# ---------------------------------------------------------------------- C05
+add('C05.nibbles_swapped', 'C05', (QTS, "    even_data = flattened_data[::2] & 0x0F\n    odd_data = np.left_shift(flattened_data[1::2], 4).astype(np.uint8)", "    even_data = np.left_shift(flattened_data[::2], 4).astype(np.uint8)\n    odd_data = flattened_data[1::2] & 0x0F"),
+    'C05.R2', 'nibble halves swapped', control=True)
+add('C05.no_pad', 'C05', (QTS, "    if odd_data.shape[0] == even_data.shape[0] - 1:\n      odd_data = np.pad(odd_data, (0, 1), constant_values=0)\n", ""), 'C05.R2', 'odd tail not padded')
+add('C05.pack_threshold', 'C05', (QTS, "  if bitwidth <= 4:\n    even_data", "  if bitwidth < 4:\n    even_data"), 'C05.R1', '4-bit data not packed but annotated INT4')
+add('C05.int4_band', 'C05', (QTS, "  if bitwidth <= 4:\n    return schema_py_generated.TensorType.INT4", "  if bitwidth <= 5:\n    return schema_py_generated.TensorType.INT4"), 'C05.R1', '5-bit params annotated INT4 while stored one value per byte')
+add('C05.storage_ladder', 'C05', (UQT, "  if qtype.num_bits <= 8:\n    qtype = np.int8 if qtype.signed else np.uint8", "  if qtype.num_bits < 8:\n    qtype = np.int8 if qtype.signed else np.uint8"), 'C05.R1', '8-bit values stored as int16 but annotated INT8')
+add('C05.fp16_clip', 'C05', (FCS, "      num_bits=16, quantized_data=weight_content.astype(np.float16)  # pytype: disable=attribute-error\n  )\n  op2weight_params = qtyping.OpToTensorParams(\n      subgraph_op_id=op_info.subgraph_op_index,\n      parameters=quant_params,\n      transformations=[_QuantTransformation.ADD_DEQUANTIZE],\n  )\n  op_tensor_params.append(\n      qtyping.TensorTransformationParams(\n          tensor_name=tfl_flatbuffer_utils.get_tensor_name(weight_tensor),\n          consumers=[op2weight_params],\n      )\n  )\n  # Output tensor.\n  output_quant_params = _config_no_quantize_tensor(\n      op_info, output_tensor, is_inbounding_tensor=False\n  )\n  op_tensor_params.append(output_quant_params)\n  # Bias tensor.\n  if bias_tensor is not None:\n    bias_quant_params = _config_no_quantize_tensor(\n        op_info, bias_tensor, is_inbounding_tensor=True\n    )\n    op_tensor_params.append(bias_quant_params)\n  return op_tensor_params\n\n\ndef materialize_embedding_lookup(",
+    "      num_bits=16, quantized_data=np.clip(weight_content, -65504.0, 65504.0).astype(np.float16)  # pytype: disable=attribute-error\n  )\n  op2weight_params = qtyping.OpToTensorParams(\n      subgraph_op_id=op_info.subgraph_op_index,\n      parameters=quant_params,\n      transformations=[_QuantTransformation.ADD_DEQUANTIZE],\n  )\n  op_tensor_params.append(\n      qtyping.TensorTransformationParams(\n          tensor_name=tfl_flatbuffer_utils.get_tensor_name(weight_tensor),\n          consumers=[op2weight_params],\n      )\n  )\n  # Output tensor.\n  output_quant_params = _config_no_quantize_tensor(\n      op_info, output_tensor, is_inbounding_tensor=False\n  )\n  op_tensor_params.append(output_quant_params)\n  # Bias tensor.\n  if bias_tensor is not None:\n    bias_quant_params = _config_no_quantize_tensor(\n        op_info, bias_tensor, is_inbounding_tensor=True\n    )\n    op_tensor_params.append(bias_quant_params)\n  return op_tensor_params\n\n\ndef materialize_embedding_lookup("),
+    'C05.R3', 'weights clipped to the fp16 range before the cast (seeded a1-C05)')
+add('C05.other_params', 'C05', (MMU, "    quantized_vars = uniform_quantize_tensor.uniform_quantize(\n        tensor_content, quant_params\n    )\n  # Update with quantized values.\n  return qtyping.UniformQuantParams(\n      scale=scale,\n      zero_point=zp,\n      num_bits=tensor_quant_config.num_bits,\n      symmetric=tensor_quant_config.symmetric,",
+    "    quantized_vars = uniform_quantize_tensor.uniform_quantize(\n        tensor_content, quant_params\n    )\n  # Update with quantized values.\n  return qtyping.UniformQuantParams(\n      scale=scale,\n      zero_point=zp,\n      num_bits=tensor_quant_config.num_bits,\n      symmetric=True,"),
+    'C05.R8', 'data quantized with the configured symmetry but annotated symmetric=True')
+add('C05.wrong_buffer', 'C05', (QTS, "      transformation_input.buffers[tensor.buffer].data = _pack_data(", "      transformation_input.buffers[transformation_input.tensor_id].data = _pack_data("), 'C05.R4', 'bytes written to the buffer whose index equals the tensor id')
+add('C05.pack_other_bits', 'C05', (QTS, "          transformation_input.quant_params.num_bits,\n          np.frombuffer(", "          8,\n          np.frombuffer("), 'C05.R4', 'packing decided with a constant width')
